@@ -1391,7 +1391,7 @@ def _twins(ctx):
     for idx in range(ctx.n(20, 240)):
         r = ctx.rng('twins', idx)
         nr = ctx.np_rng('twins', idx)
-        what = ['signedness', 'bits_stored', 'planar', 'transposed', 'photometric'][idx % 5]
+        what = ['signedness', 'bits_stored', 'planar', 'transposed', 'photometric', 'transfer_syntax'][idx % 6]
         n, rows, cols = r.choice([1, 2, 3]), r.randint(1, 4), r.randint(2, 5)
         bits = r.choice([8, 16]) if what not in ('planar', 'photometric') else 8
         colour = what in ('planar', 'photometric')
@@ -1409,15 +1409,23 @@ def _twins(ctx):
             if rows == cols:
                 continue
             dsb.Rows, dsb.Columns = cols, rows
-        else:
+        elif what == 'photometric':
             dsb.PhotometricInterpretation = 'YBR_FULL'
+        elif what == 'transfer_syntax':
+            from pydicom.uid import RLELossless
+            try:
+                dsb = multiframe_image(fr, bits, RLELossless)
+            except Exception as e:  # noqa: BLE001
+                ctx.note(f'twins: RLE twin not encodable: {type(e).__name__}')
+                continue
         blobs = [to_bytes(dsa), to_bytes(dsb)]
         try:
             refs = [pydicom.dcmread(io.BytesIO(b)).pixel_array for b in blobs]
         except Exception as e:  # noqa: BLE001
             ctx.note(f'twins: pydicom cannot decode the {what} twin: {type(e).__name__}')
             continue
-        refs = [x.reshape((n,) + x.shape[(0 if n == 1 else 1):]) for x in refs]
+        ns = [n, int(getattr(dsb, 'NumberOfFrames', 1))]
+        refs = [x.reshape((ns[q],) + x.shape[(0 if ns[q] == 1 else 1):]) for q, x in enumerate(refs)]
         d = {'idx': idx, 'differs_in': what, 'frames': n, 'rows': rows, 'cols': cols, 'bits': bits}
         for how in ('memory', 'lazy', 'reader'):
             objs = []
@@ -1432,7 +1440,7 @@ def _twins(ctx):
             if any(o is None for o in objs):
                 ctx.fail({'twins': d, 'path': how}, 'could not open a twin image', site='open/twins')
                 continue
-            order = [(w, k) for k in range(n) for w in (0, 1)]
+            order = [(w, k) for w in (0, 1) for k in range(ns[w])]
             r.shuffle(order)
             for w, k in order + order[:2]:
                 o = objs[w]
